@@ -16,16 +16,16 @@ FLAGS_RAYON = " -Zmiri-tree-borrows -Zmiri-ignore-leaks"  # crossbeam-epoch need
 
 PLAN = {
     # prop: (mode, quick (workload seeds, miri seeds per workload), thorough)
-    "C02": ("checker", (8, 4), (192, 16)),
-    "C04": ("perm", (8, 4), (96, 16)),
-    "C05": ("checker", (8, 4), (96, 16)),
-    "C06": ("checker", (8, 4), (96, 16)),
-    "C10": ("vm", (24, 8), (480, 16)),
-    "C20": ("lock", (24, 8), (480, 16)),
+    "C02": ("checker", (8, 4), (64, 8)),
+    "C04": ("perm", (8, 4), (48, 8)),
+    "C05": ("checker", (8, 4), (48, 8)),
+    "C06": ("checker", (8, 4), (48, 8)),
+    "C10": ("vm", (24, 8), (240, 16)),
+    "C20": ("lock", (24, 8), (240, 16)),
 }
 # further modes a property runs after its first one
 EXTRA = {
-    "C20": [("poison", (12, 8), (240, 16))],
+    "C20": [("poison", (12, 8), (120, 16))],
 }
 
 
